@@ -94,10 +94,11 @@ RECURSIVE RunLenD(_, _, _)
 RunLenD(text, i, Stop) == IF i > Len(text) \/ text[i] \in Stop THEN 0 ELSE 1 + RunLenD(text, i + 1, Stop)
 
 (* ===================== 2. the same over run-length texts (affordable for long lines) ===================== *)
-\* A run-length text is a sequence of runs <<class, count>>, count >= 1, with count > 1 only for the classes
-\* that are not line breaks.  AsRuns / Expand convert; PositionGen lets TLC check on every enumerated text and
-\* offset that the operators of this section equal the definitions of section 1.
-RunsOK(rt) == \A j \in 1..Len(rt) : rt[j][1] \in Classes /\ rt[j][2] >= 1 /\ (rt[j][2] > 1 => rt[j][1] \in NonBreak)
+\* A run-length text is a sequence of runs <<class, count>>, count >= 1.  A \r is always a run of its own
+\* (whether it is a break depends on what follows it); every other class may be repeated.  AsRuns / Expand
+\* convert; PositionGen lets TLC check on every enumerated text and offset that the operators of this section
+\* equal the definitions of section 1.
+RunsOK(rt) == \A j \in 1..Len(rt) : rt[j][1] \in Classes /\ rt[j][2] >= 1 /\ (rt[j][2] > 1 => rt[j][1] # CR)
 
 RECURSIVE NChars(_, _)
 NChars(rt, j) == IF j > Len(rt) THEN 0 ELSE rt[j][2] + NChars(rt, j + 1)
@@ -106,14 +107,16 @@ RECURSIVE ExpandR(_, _)
 ExpandR(rt, j) == IF j > Len(rt) THEN <<>> ELSE [i \in 1..rt[j][2] |-> rt[j][1]] \o ExpandR(rt, j + 1)
 Expand(rt) == ExpandR(rt, 1)
 
-RECURSIVE AsRunsR(_, _, _)
-AsRunsR(text, i, acc) ==
+\* equal neighbours of a class in Merge become one run
+RECURSIVE AsRunsR(_, _, _, _)
+AsRunsR(text, Merge, i, acc) ==
     IF i > Len(text) THEN acc
     ELSE LET c == text[i]  m == Len(acc) IN
-         IF m > 0 /\ c \in NonBreak /\ acc[m][1] = c
-         THEN AsRunsR(text, i + 1, [acc EXCEPT ![m] = <<c, acc[m][2] + 1>>])
-         ELSE AsRunsR(text, i + 1, Append(acc, <<c, 1>>))
-AsRuns(text) == AsRunsR(text, 1, <<>>)
+         IF m > 0 /\ c \in Merge /\ acc[m][1] = c
+         THEN AsRunsR(text, Merge, i + 1, [acc EXCEPT ![m] = <<c, acc[m][2] + 1>>])
+         ELSE AsRunsR(text, Merge, i + 1, Append(acc, <<c, 1>>))
+AsRuns(text)    == AsRunsR(text, NonBreak, 1, <<>>)            \* what the harness logs
+AsRunsAll(text) == AsRunsR(text, Classes \ {CR}, 1, <<>>)      \* also runs of \n, U+2028, U+2029
 
 \* Scan returns  line: the line number;  ls: characters before the line start;  k: characters that ended at or
 \* before off;  b: byte offset at which character k ended (= where character k+1 starts).
@@ -121,13 +124,17 @@ AsRuns(text) == AsRunsR(text, 1, <<>>)
 RECURSIVE ScanR(_, _, _, _, _, _, _)
 ScanR(rt, off, j, cb, b, line, ls) ==
     IF j > Len(rt) THEN [line |-> line, ls |-> ls, k |-> cb, b |-> b]
-    ELSE LET c == rt[j][1]  m == rt[j][2]  w == W(c) IN
+    ELSE LET c == rt[j][1]  m == rt[j][2]  w == W(c)
+             \* every character of the run completes a break
+             brk == IsBreak(c) /\ ~(c = CR /\ j < Len(rt) /\ rt[j + 1][1] = LF)
+         IN
          IF b + m * w <= off                                       \* the whole run ends at or before the offset
-         THEN IF IsBreak(c) /\ ~(c = CR /\ j < Len(rt) /\ rt[j + 1][1] = LF)      \* it completes a break
-              THEN ScanR(rt, off, j + 1, cb + m, b + m * w, line + 1, cb + m)
-              ELSE ScanR(rt, off, j + 1, cb + m, b + m * w, line, ls)
+         THEN IF brk THEN ScanR(rt, off, j + 1, cb + m, b + m * w, line + m, cb + m)
+                     ELSE ScanR(rt, off, j + 1, cb + m, b + m * w, line, ls)
          ELSE LET q == IF off <= b THEN 0 ELSE (off - b) \div w IN  \* q < m characters of this run have ended
-              [line |-> line, ls |-> ls, k |-> cb + q, b |-> b + q * w]
+              [line |-> IF brk THEN line + q ELSE line,
+               ls   |-> IF brk /\ q > 0 THEN cb + q ELSE ls,
+               k    |-> cb + q, b |-> b + q * w]
 Scan(rt, off) == ScanR(rt, off, 1, 0, 0, 1, 0)
 
 \* text is Expand(rt), handed in so that it is computed once
@@ -150,15 +157,17 @@ RECURSIVE RunLenR(_, _, _, _, _)
 RunLenR(rt, from, Stop, j, cb) ==
     IF j > Len(rt) THEN cb - from
     ELSE IF cb + rt[j][2] <= from THEN RunLenR(rt, from, Stop, j + 1, cb + rt[j][2])       \* run before the line
-    ELSE IF rt[j][1] \in Stop THEN cb - from
+    ELSE IF rt[j][1] \in Stop THEN (IF cb < from THEN 0 ELSE cb - from)      \* the line may start inside a run of breaks
     ELSE RunLenR(rt, from, Stop, j + 1, cb + rt[j][2])
 HardLen(rt, ls) == RunLenR(rt, ls, {LF, CR}, 1, 0)
 AnyLen(rt, ls)  == RunLenR(rt, ls, {LF, CR, LS, PS}, 1, 0)
 
 \* agreement of section 2 with section 1 (checked by TLC in PositionGen)
 Agrees(text, off) ==
-    LET rt == AsRuns(text)  s == Scan(rt, off) IN
+    LET rt == AsRuns(text)  s == Scan(rt, off)  ra == AsRunsAll(text) IN
     /\ RunsOK(rt) /\ Expand(rt) = text
+    /\ RunsOK(ra) /\ Expand(ra) = text /\ Scan(ra, off) = s
+    /\ HardLen(ra, s.ls) = HardLen(rt, s.ls) /\ AnyLen(ra, s.ls) = AnyLen(rt, s.ls)
     /\ s.line = LineD(text, off) /\ s.ls = LineStartD(text, off)
     /\ ColSetS(text, s, off) = ColSetD(text, off)
     /\ HardLen(rt, s.ls) = RunLenD(text, s.ls + 1, {LF, CR})
